@@ -59,6 +59,9 @@ type modelCfg struct {
 	// Diff: also run this (tag-free) twin model on the same input with a fresh engine and require the
 	// same error nil-ness, result-map keys and - for sequential models - the same event log
 	Diff string `json:"diff,omitempty"`
+	// Large: a rule set beyond the size thresholds of library code (e.g. sort.Slice is an insertion
+	// sort, stable by accident, up to 12 elements); run under the default schedule only
+	Large bool `json:"large,omitempty"`
 }
 
 type modelState struct {
@@ -92,7 +95,9 @@ func (c modelCfg) specs() []gx.RuleSpec {
 	for i, r := range c.Rules {
 		sp := gx.RuleSpec{Name: r.Name, ID: int64(i + 1), Salience: r.Sal, NoSal: r.NoSal, Fail: r.Fail, Ret: true}
 		// every rule bumps its private counter in injected data: an effect besides the log
-		sp.Extra = fmt.Sprintf("cnt.C%d += 1", i+1)
+		if i < 6 {
+			sp.Extra = fmt.Sprintf("cnt.C%d += 1", i+1)
+		}
 		if r.SetsTag {
 			sp.Extra += "\n  stag.StopTag = true"
 		}
@@ -324,6 +329,9 @@ func modelScenarioWith(cfg modelCfg, prebuilt *builder.RuleBuilder) *hx.Scenario
 			}
 			// effects: a rule's counter equals its number of start events
 			for i := range cfg.Rules {
+				if i >= 6 {
+					break // only the first six rules carry a counter
+				}
 				if int(x.cnt.get(i)) != x.log.Count("s", int64(i+1)) {
 					fs = append(fs, hx.Finding{Sig: pfx + "effect-count", Msg: fmt.Sprintf("rule %d: counter %d but %d start events", i+1, x.cnt.get(i), x.log.Count("s", int64(i+1))) + desc()})
 				}
